@@ -1,5 +1,5 @@
 """
-C07  Molecular Hamiltonian MPOs are exact for every orbital count, both build paths (gauge transform not decided).
+C07  Molecular Hamiltonian MPOs are exact for every orbital count, both build paths; orbital-rotation gauge transform.
 
 molecular_hamiltonian_mpo / spin_molecular_hamiltonian_mpo run end to end with *every* entry of tkin (L^2) and
 vint (L^4) symbolic.  The explicit construction has no coefficient-dependent branching (one path per L); on the
@@ -15,12 +15,23 @@ from harness import concrete
 from refs import models as Mo
 from symx import shims, prover, runner
 from symx.engine import DeadPath
-from symx.poly import Sym, S
+from symx.poly import Sym, S, Atom
 import pytenet as ptn
 
 PID = 'C07'
 
 MASKS = ['dense', 'tkin_only', 'vint_only', 'diagonal', 'nearest_neighbour', 'seeded0', 'seeded1']
+
+
+UNITARIES = {
+    'identity': [[1, 0], [0, 1]],
+    'swap': [[0, 1], [1, 0]],
+    'phases': [[1j, 0], [0, -1]],
+    'real_rot': [[0.6, -0.8], [0.8, 0.6]],
+    'real_rot2': [[5 / 13, 12 / 13], [-12 / 13, 5 / 13]],
+    'cplx_mix': [[0.6, 0.8j], [0.8j, 0.6]],
+    'cplx_general': [[0.6 * 1j, -0.8], [0.8 * 1j, 0.6]],
+}
 
 
 def tasks(tier, seed):
@@ -39,6 +50,13 @@ def tasks(tier, seed):
             ts.append(dict(name=f'spin_opt_L{L}_{mk}', kind='spin', L=L, optimize=True, mask=mk, dense=True))
     for L in (2, 3) if q else (2, 3, 4):
         ts.append(dict(name=f'spin_explicit_L{L}', kind='spin', L=L, optimize=False, mask='dense', dense=True))
+    # orbital-rotation gauge matrices: all coefficients symbolic, the 2x2 unitary from a stated finite family
+    for L in (4, 5, 6) if q else (4, 5, 6, 7):
+        for i in range(L - 1):
+            ts.append(dict(name=f'gauge_L{L}_i{i}_symbolic', kind='gauge', L=L, i=i, u='symbolic' if L <= 6 else 'symbolic_real', dense=True))
+    for i in (0, 1, 2):
+        for uname in (('swap', 'cplx_mix') if q else tuple(UNITARIES)):
+            ts.append(dict(name=f'gauge_L4_i{i}_{uname}', kind='gauge', L=4, i=i, u=uname, dense=True))
     # structural only (dense matrices of dimension 4^L are out of reach): construction succeeds, graph bookkeeping is sound
     for L in (5,) if q else (5, 6):
         ts.append(dict(name=f'spin_explicit_L{L}_structural', kind='spin', L=L, optimize=False, mask='dense', dense=False))
@@ -50,7 +68,7 @@ def tasks(tier, seed):
 
 
 def required_marks(tier):
-    return ['optimized_path', 'explicit_path', 'L1', 'spin_L5_explicit_constructed', 'zero_pattern_masked', 'nid_map_checked']
+    return ['optimized_path', 'explicit_path', 'L1', 'spin_L5_explicit_constructed', 'zero_pattern_masked', 'nid_map_checked', 'gauge_checked', 'gauge_symbolic_unitary', 'gauge_nontrivial_matrices']
 
 
 def make_coeffs(eng, L, mask, seed, cplx=False):
@@ -168,7 +186,68 @@ def structural_fails(mpo, L, d, explicit):
     return fails
 
 
+def path_gauge(eng, acc, task):
+    """molecular_hamiltonian_orbital_gauge_transform: replacing the tensors at sites i, i+1 of the explicit MPO by those of the
+    MPO of the rotated coefficients, gauge-transformed on bonds i and i+2, must give the operator of the rotated coefficients"""
+    L, i = task['L'], task['i']
+    if task['u'] in ('symbolic', 'symbolic_real'):
+        # an ARBITRARY 2x2 unitary: 8 (4) real unknowns constrained only by u^H u = 1 (needed by the function's own assertion)
+        if task['u'] == 'symbolic':
+            u2 = np.array([[eng.csym('u00'), eng.csym('u01')], [eng.csym('u10'), eng.csym('u11')]], dtype=object)
+        else:
+            u2 = np.array([[eng.sym('u00'), eng.sym('u01')], [eng.sym('u10'), eng.sym('u11')]], dtype=object)
+        G = u2.conj().T.dot(u2)
+        for x, y, val in ((0, 0, 1), (1, 1, 1), (0, 1, 0)):
+            g = S(G[x, y]) - val
+            eng.assume(Atom(g.t, '=='), tag='promoted')
+            if g.u:
+                eng.assume(Atom(g.u, '=='), tag='promoted')
+        u = np.identity(L, dtype=object)
+        eng.mark('gauge_symbolic_unitary')
+    else:
+        u2 = np.array(UNITARIES[task['u']], dtype=complex)
+        u = np.identity(L, dtype=complex)
+    tk, vi = make_coeffs(eng, L, 'dense', 0, False)
+    inputs = dict(kind='gauge', L=L, i=i, u=[[x for x in r] for r in u2], tkin=tk.copy(), vint=vi.copy())
+    u[i:i + 2, i:i + 2] = u2
+    fails = []
+    try:
+        tk_r = np.einsum(u, (2, 0), u.conj(), (3, 1), tk, (2, 3), (0, 1))
+        vi_r = np.einsum(u, (4, 0), u, (5, 1), u.conj(), (6, 2), u.conj(), (7, 3), vi, (4, 5, 6, 7), (0, 1, 2, 3))
+        h = ptn.molecular_hamiltonian_mpo(tk, vi, optimize=False)
+        h_r = ptn.molecular_hamiltonian_mpo(tk_r, vi_r, optimize=False)
+        h.A[i] = h_r.A[i].copy(); h.A[i + 1] = h_r.A[i + 1].copy()
+        v_l, v_r = ptn.molecular_hamiltonian_orbital_gauge_transform(h, u2, i)
+        h.A[i] = np.einsum(v_l, (2, 4), h.A[i], (0, 1, 4, 3), (0, 1, 2, 3))
+        h.A[i + 1] = np.einsum(v_r, (3, 4), h.A[i + 1], (0, 1, 2, 4), (0, 1, 2, 3))
+        M = h.as_matrix(); Mr = h_r.as_matrix()
+    except (AssertionError, ValueError, IndexError, KeyError, TypeError, ZeroDivisionError) as e:
+        import traceback
+        tb = traceback.extract_tb(e.__traceback__)[-1]
+        candidate(eng, acc, task, 'molecular_gauge', f'gauge:raises:{type(e).__name__}@{tb.lineno}', repr(e), inputs)
+        return
+    n = 2 ** L
+    if any(isinstance(x, Sym) and not x.is_const() for x in list(v_l.reshape(-1)) + list(v_r.reshape(-1))):
+        eng.mark('gauge_nontrivial_matrices')
+    pairs = [(S(M[a, b]), S(Mr[a, b])) for a in range(n) for b in range(n) if not (is_structural_zero(M[a, b]) and is_structural_zero(Mr[a, b]))]
+    goals = [l - r for l, r in pairs]
+    res = prover.prove(eng, pairs=pairs, rounds=0, acc=acc, label='vc_gauge_exact')
+    if res != 'proved' and task['u'].startswith('symbolic'):
+        res = prover.prove_escalating(eng, goals, rounds=(1, 2), acc=acc, label='vc_gauge_mod_unitarity', maxdeg=10, max_products=60000)
+    if res != 'proved':
+        from symx.poly import VARS, VROLE, VKIND
+        ivars = [v for v in range(len(VARS)) if VROLE[v] == 'input' and VKIND[v] == 'real']
+        if prover.prove_within_tolerance(eng, goals, ivars, acc=acc, label='vc_gauge_tol') != 'proved':
+            fails.append('gauge-transformed MPO differs from the MPO of the rotated coefficients')
+    eng.mark('gauge_checked')
+    acc.inc('nontrivial_paths')
+    if fails:
+        candidate(eng, acc, task, 'molecular_gauge', 'gauge:' + fails[0][:40], '; '.join(fails), inputs)
+
+
 def path(eng, acc, task):
+    if task['kind'] == 'gauge':
+        return path_gauge(eng, acc, task)
     kind, L, opt = task['kind'], task['L'], task['optimize']
     cplx = task.get('cplx', False)
     tk, vi = make_coeffs(eng, L, task['mask'], 0, cplx)
@@ -252,7 +331,9 @@ def evidence(tier, seed, total, per_task, val):
                                'OpGraph.from_opchains', 'MPO.from_opgraph', 'MPO.as_matrix'],
             bounds=dict(tasks=[t['name'] for t in ts], zero_pattern_family=MASKS),
             stubs=[],
-            outside=['orbital-rotation gauge matrices (identity only modulo u^H u = 1, degree 4 in 8 unknowns times >= 272 coefficient symbols)',
+            gauge_transform='decided for ALL coefficient tensors (symbolic) and an ARBITRARY 2x2 unitary (8 real unknowns, assumed u^H u = 1), L = 4..6 (7 thorough, real u), every rotated pair i; '
+                            'the identity turned out to be an exact polynomial identity in the entries of u and conj(u)',
+            outside=[
                      'dense equality for spin L >= 4 (quick) / 5 (thorough): 4^L-dimensional symbolic matrices',
                      'measure-zero cancellations among non-zero coefficients on the optimised path (assumed generic)'],
             distinct_nontrivial=int(total.get('nontrivial_paths')),
